@@ -13,7 +13,8 @@ func GetDefaultInterface() (iface *net.Interface, ifaceIP net.IP, err error) {
 	if routes, err = netlink.RouteList(nil, nl.FAMILY_V4); err != nil {
 		return
 	}
-	priority := math.MaxInt32
+	// route metrics are unsigned 32-bit numbers
+	priority := math.MaxInt
 	for _, route := range routes {
 		// found default gateway
 		if route.Dst == nil && route.Priority < priority {
@@ -34,7 +35,7 @@ func GetDefaultGatewayIP(iface *net.Interface) (gatewayIP net.IP, err error) {
 	if routes, err = netlink.RouteList(nil, nl.FAMILY_V4); err != nil {
 		return
 	}
-	priority := math.MaxInt32
+	priority := math.MaxInt
 	for _, route := range routes {
 		// found default gateway
 		if route.Dst == nil && route.LinkIndex == iface.Index && route.Priority < priority {
